@@ -219,7 +219,7 @@ def c06(run):
 
 
 def c01(run):
-    gens = [("Gen_Compose", "cmp", 8, 8, 6000, 60000, ["ComposeLaw", "EmitCmp"], 1000),
+    gens = [("Gen_Compose", "cmp", 8, 8, 6000, 20000, ["ComposeLaw", "EmitCmp"], 1000),
             ("Gen_WF", "wf", 1, 1, 1000, 1000, ["EmitWF"], 1000)]
     return query_check(
         run, gens, RESULT,
@@ -232,13 +232,13 @@ def c01(run):
               "datasets, windows of 1..35 steps with steps of 1..5 ticks, tick 0.5/1/15 s, per-query lookbacks) are replayed; their "
               "expected outcome is computed by TLC from PromQLRef during trace validation. distinct_nontrivial = structural scenarios on which PromQLRef agreed with Prometheus."),
         assumptions=["Prometheus v0.40.1 is the reference", "OPAQUE values are compared with the reference by the Go comparator (1e-9)"],
-        rnd=("compose", 3000, 40000), every=(250, 4000))
+        rnd=("compose", 3000, 12000), every=(250, 1500))
 
 
 ALL_GENS = [("Gen_Selector", "sel", 16, 24, ["EmitSel"], 1000), ("Gen_Window", "win", 8, 16, ["EmitWin"], 1000),
             ("Gen_Agg", "agg", 1, 1, ["EmitAgg"], 1000), ("Gen_Bin", "bin", 1, 1, ["EmitBin"], 1000),
             ("Gen_Func", "fn", 1, 1, ["EmitFn"], 1000), ("Gen_Compose", "cmp", 8, 8, ["EmitCmp"], 1000),
-            # many series (0..40 of one metric, several per group and per shard) under a basket of 31 queries
+            # many series (0..40 of one metric, several per group and per shard) under a basket of 34 queries
             ("Shards", "shard", 2, 1, ["EmitShard"], 1000),
             # degenerate / colliding / extreme inputs (holes, hand-overs between metrics, histograms, 1e308, denormals)
             ("Gen_WF", "wf", 1, 1, ["EmitWF"], 1000),
@@ -515,7 +515,7 @@ def c11(run):
     return vlib.finish(run, "model_checking",
                        rule=("Shards.tla: for all n <= 40 series and N <= 8 shards the shard slices partition the series and the re-based IDs are "
                              "an order-preserving bijection (TLC, exhaustive). Scenarios with 0..40 series (every remainder of n mod shards) over a "
-                             "31-query basket covering every operator kind, plus general and random scenarios, are executed under GOMAXPROCS "
+                             "34-query basket covering every operator kind, plus general and random scenarios, are executed under GOMAXPROCS "
                              "1,2,3,4,5,6,8,12,16, seeded permutations of the storage's series order, decoy series, seeded yields/sleeps in storage "
                              "callbacks and at the engine's scheduling points (hook H2), and repetitions; SessionTrace.tla (result independent of "
                              "all of these) is validated by TLC. distinct_nontrivial = executions compared with the first of their scenario."),
@@ -560,7 +560,7 @@ FAULT_CLAUSES = {
     "C15": {"ErrorSurfaces"},
     "C17": {"QuerierBeforeExec", "QuerierAfterReturn", "QuerierClosedOnce", "DataUnmodified"},
 }
-FAULT_MODES = {"C13": ["panic", "panic+lag"], "C14": ["cancel", "block", "blockq", "cancelcall", "gate"], "C15": ["err", "errwrap", "errdown", "err+lag"], "C17": ["err", "errdown", "panic", "cancel", "block"]}
+FAULT_MODES = {"C13": ["panic", "panic+lag", "cancelpanic"], "C14": ["cancel", "block", "blockq", "cancelcall", "gate", "blockq+busy", "cancelcall+busy"], "C15": ["err", "errwrap", "errdown", "err+lag"], "C17": ["err", "errdown", "panic", "cancel", "block"]}
 
 
 def mc_exec(run):
